@@ -102,8 +102,8 @@ class C05(Prop):
 
     def plan(self, tier):
         if tier == "quick":
-            return {"units": 20000, "budget_s": 75, "block": 200}
-        return {"units": 800000, "budget_s": 1500, "block": 400}
+            return {"units": 100000, "budget_s": 90, "block": 500}
+        return {"units": 3000000, "budget_s": 1500, "block": 1000}
 
     def gen(self, rng, idx, tier):
         stack = rng.choice(["client"] * 5 + ["pooled", "hash", "retrying"])
